@@ -18,6 +18,8 @@
    q.eqok <qa> <qb> <constA> <constB> <sameDomain> <equal>
    q.trok <qa> <ua> <var> <qr> <ur>
    q.labelok <q> <u>
+   q.stepok <src> <dst> <qa> <ua> <qr> <ur>   (one domain change, angle-aware)
+   q.sameunits <u> <w>          (route independence: same SI dimension and same power of rad)
    q.freshok <domain> <q> <u>   (units of a fresh / analysis-produced expression: spec's expectedDim)
    q.dim <u>                    -> v,a,t
 -/
@@ -153,6 +155,14 @@ def handle (toks : List String) : Option String :=
       match Domain.ofString? d, Quantity.ofString? q, parseU u with
       | some d, some q, some u => bstr (freshOk d q u)
       | _, _, _ => "bad-op"
+  | ["q.stepok", src, dst, qa, ua, qr, ur] => some <|
+      match Domain.ofString? src, Domain.ofString? dst, Quantity.ofString? qa, parseU ua, Quantity.ofString? qr, parseU ur with
+      | some src, some dst, some qa, some ua, some qr, some ur => bstr (stepOk src dst qa ua qr ur)
+      | _, _, _, _, _, _ => "bad-op"
+  | ["q.sameunits", u, w] => some <|
+      match parseU u, parseU w with
+      | some u, some w => bstr (sameUnits u w)
+      | _, _ => "bad-op"
   | ["q.labelok", q, u] => some <|
       match Quantity.ofString? q, parseU u with
       | some q, some u => bstr (labelOk q u)
